@@ -48,6 +48,15 @@ func runC18(c *Ctx) {
 		}
 		w := f.search(searchSpec{avoid: pub, avoidEdges: exempt, exits: true})
 		c.Check(w == nil && len(deser) > 0 && len(parseBad) >= 5 && nSend == 1, "every-failure-is-dead-lettered", "every exit other than a successful dispatch publishes a dead letter, except undecodable payload / unparseable receiver", c.P.Pos(fn.Decl.Pos()), f.describe(w))
+		// the message is handed to the target only over the edge on which the target reported IsRunning() — the full
+		// liveness predicate (running and not stopping, passivating or suspended). A weaker test (the running flag
+		// alone) enqueues on a mailbox that is being torn down: the message is discarded with no dead letter.
+		dispatch := f.CallTo(c.FuncObj("actor", "actorSystem.handleRemoteTell"))
+		alive := f.BoolEdges(func(e ast.Expr) bool {
+			call, ok := ast.Unparen(e).(*ast.CallExpr)
+			return ok && callee(info, call) == c.FuncObj("actor", "PID.IsRunning")
+		}, true)
+		c.guardedBy(f, alive, dispatch, "dispatch-only-if-running", "a remote tell is handed to its target only over the edge on which the target's IsRunning() was true (else it is dead-lettered)", c.P.Pos(fn.Decl.Pos()))
 		w = f.MayReach(f.Find(pub), nil, pub)
 		c.Check(w == nil && len(f.Find(pub)) >= 5, "at-most-once", "no path publishes a dead letter twice for one message", c.P.Pos(fn.Decl.Pos()), f.describe(w))
 		// the success edge does not publish
